@@ -207,9 +207,9 @@ def run_split_replay(chk, states):
         if k not in seen:
             seen.add(k)
             uniq.append(s)
-    if chk.tier != "thorough" and len(uniq) > int(420 * SCALE):
+    if chk.tier != "thorough" and len(uniq) > 420:
         part_rng(chk, "split").shuffle(uniq)
-        uniq = uniq[: int(420 * SCALE)]
+        uniq = uniq[:420]
     traces = common.pmap(c06_split.replay_state, uniq, procs=8, chunksize=16)
     kinds = {}
     for t in traces:
@@ -387,7 +387,7 @@ def report_simple(chk, rejected, kind):
             raise MachineryError("%s: %s on %s" % (kind, c, json.dumps(t.get("lk") or t.get("g"))[:600]))
         if kind == "pack":
             what = "offset graph %s packed in mode %s: real outcome %s, emitted %r" % (json.dumps(t["g"]), t["mode"], t["res"], t["scan"][:10])
-            chk.reject("pack:" + c, what, {"kind": "pack", "g": t["g"], "mode": t["mode"], "label": t.get("label", "")})
+            chk.reject(c if c.startswith("pack:") else "pack:" + c, what, {"kind": "pack", "g": t["g"], "mode": t["mode"], "label": t.get("label", "")})
         else:
             what = "%s lookup list %s with overflow record %s: tryResolveOverflow returned %s; summary after: %s" % (
                 t["tag"], json.dumps(t["lk"]), json.dumps(t["rec"]), t["ok"], json.dumps(t["sumafter"]))
